@@ -375,6 +375,11 @@ fn collect_formats(ps: &[MP], out: &mut Vec<String>) {
 
 pub fn date_formats(pattern: &str) -> Vec<String> {
     let mut out = vec![];
+    // no date formatter, nothing to scan (the scan is recursive: keep it away from the
+    // deep-nesting family, whose stack must be spent by the code under test only)
+    if !pattern.contains("{d") {
+        return out;
+    }
     for underscore in [false, true] {
         let mut sc = Scan { s: pattern.chars().collect(), i: 0, underscore };
         let mut ps = vec![];
@@ -766,7 +771,102 @@ pub fn process_init() {
     });
 }
 
+// ------------------------------------------------------------------------------------------------
+// deep-nesting family ("never panics or aborts"): a stack overflow kills the process, so the case
+// runs in a CHILD process (this binary, `exec C11`, one ordinary case line on stdin; the child
+// encodes on a spawned thread with the default 2 MiB stack like every other case).
+// case line: the ordinary nine fields with pattern `_`, then `deep:<shape>:<N>`
+//   closed = "{(" * N ++ "x" ++ ")}" * N      h = "{h(" * N ++ "x" ++ ")}" * N      open = "{(" * N
+// observation: `deep ABORT:<signal|rc>` or `deep <outcome> <text chars> <style calls> <text prefix>`
+// ------------------------------------------------------------------------------------------------
+pub fn deep_pattern(shape: &str, n: usize) -> Option<String> {
+    match shape {
+        "closed" => Some(format!("{}x{}", "{(".repeat(n), ")}".repeat(n))),
+        "h" => Some(format!("{}x{}", "{h(".repeat(n), ")}".repeat(n))),
+        "open" => Some("{(".repeat(n)),
+        _ => None,
+    }
+}
+
+fn run_deep(fields: &[&str]) -> String {
+    use std::io::Write as _;
+    use std::process::{Command, Stdio};
+    let spec: Vec<&str> = fields[9].split(':').collect();
+    if spec.len() != 3 || spec[0] != "deep" {
+        return "bad-case".to_owned();
+    }
+    let n: usize = match spec[2].parse() {
+        Ok(n) => n,
+        Err(_) => return "bad-case".to_owned(),
+    };
+    let pattern = match deep_pattern(spec[1], n) {
+        Some(p) => p,
+        None => return "bad-case".to_owned(),
+    };
+    let mut f: Vec<String> = fields[..9].iter().map(|s| (*s).to_owned()).collect();
+    f[0] = enc_str(&pattern);
+    let line = format!("C11\t{}\n", f.join("\t"));
+    let exe = match std::env::current_exe() {
+        Ok(e) => e,
+        Err(_) => return "bad-case".to_owned(),
+    };
+    let mut child = match Command::new(exe)
+        .args(["exec", "C11"])
+        .stdin(Stdio::piped())
+        .stdout(Stdio::piped())
+        .stderr(Stdio::null())
+        .spawn()
+    {
+        Ok(c) => c,
+        Err(_) => return "bad-case".to_owned(),
+    };
+    if let Some(mut stdin) = child.stdin.take() {
+        let _ = stdin.write_all(line.as_bytes());
+    }
+    let out = match child.wait_with_output() {
+        Ok(o) => o,
+        Err(_) => return "bad-case".to_owned(),
+    };
+    let text = String::from_utf8_lossy(&out.stdout);
+    let first = text.lines().next().unwrap_or("");
+    #[cfg(unix)]
+    {
+        use std::os::unix::process::ExitStatusExt;
+        if let Some(sig) = out.status.signal() {
+            return format!("deep ABORT:signal{}", sig);
+        }
+    }
+    if !out.status.success() || first.is_empty() {
+        return format!("deep ABORT:rc{}", out.status.code().unwrap_or(-1));
+    }
+    // summarise the child's ordinary observation
+    let parts: Vec<&str> = first.split(' ').collect();
+    let outcome = parts[0];
+    let mut chars = 0usize;
+    let mut styles = 0usize;
+    let mut prefix = String::new();
+    if parts.len() > 1 && parts[1] != "-" && parts[1] != "~" {
+        for it in parts[1].split(',') {
+            if let Some(t) = it.strip_prefix('T') {
+                if let Some(t) = dec_str(t) {
+                    chars += t.chars().count();
+                    if prefix.chars().count() < 40 {
+                        prefix.push_str(&t);
+                    }
+                }
+            } else if it.starts_with('S') {
+                styles += 1;
+            }
+        }
+    }
+    let prefix: String = prefix.chars().take(40).collect();
+    format!("deep {} {} {} {}", outcome, chars, styles, enc_str(&prefix))
+}
+
 pub fn exec(fields: &[&str]) -> String {
+    if fields.len() == 10 && fields[9].starts_with("deep:") {
+        return run_deep(fields);
+    }
     process_init();
     match Case::parse(fields) {
         Some(c) => run_case(&c),
@@ -981,6 +1081,22 @@ pub fn gen(rng: &mut Rng, n: usize, thorough: bool, emit: &mut dyn FnMut(String)
     ] {
         emit(Case::simple(p).line());
         emit(Case::simple(&format!("lit {{l}} {}", p)).line());
+    }
+    // 4b. time-zone arguments with junk after (or around) a valid zone name
+    for z in [
+        "utc}x", "utc{m}", "local{{junk", "utc\\)", "utc{x}}}garbage", "utc))", "local(", "utc\\", "{{utc", "ut{{c", "utc ", " utc", "UTC",
+        "utc{m", "local}", "utc)(x", "{m}utc", "utc{d(%Y)}", "local\\{", "utc{h(x)}",
+    ] {
+        for shape in ["{d(%Y)(Z)}", "a{date(%H)(Z)}b", "{h({d(%Y)(Z)})}", "{d(%Y)(Z):>8}"] {
+            emit(Case::simple(&shape.replace('Z', z)).line());
+        }
+    }
+    // 4c. deep nesting, run in a child process (a stack overflow aborts the process)
+    let depths: &[usize] = if thorough { &[10, 100, 1000, 2000, 3000, 10000, 100000, 1000000] } else { &[10, 100, 1000, 3000, 20000] };
+    for &n in depths {
+        for shape in ["closed", "h", "open"] {
+            emit(format!("{}\tdeep:{}:{}", Case::simple("").line(), shape, n));
+        }
     }
     // 5. random: valid patterns and their mutations, random records, non-ASCII everywhere
     for i in 0..n {
